@@ -13,11 +13,14 @@ package memkv
 //@   modifies inferred:(*store).Get
 
 // the unlocked reader used by a batch (which holds the mutex from BeginBatchWrite to Commit)
+// sget: what the store last read for a key (ghost assignment at the return of get)
+//@ ghost sget Slice
 //@ func (*store).get(key) (val, err)
-//@   props C19 C11
+//@   props C19 C11 C17
 //@   nosafety
 //@   requires [lock-held] holds(s)
-//@   modifies inferred:(*store).get
+//@   modifies inferred:(*store).get ghost.sget
+//@   assume_ensures [ghost-assignment] sget == val
 
 // bget is what the batch last read for a key: its own pending write if there is one, else the store
 // (the trusted clause below is a ghost assignment "bget := result" at the return of get)
@@ -107,3 +110,17 @@ package memkv
 //@   nosafety
 //@   modifies *
 //@   callers_only (*store).Del
+
+// the expiry timer: under the store's lock, removes the key only if it still holds exactly the value
+// that was written with the ttl (a rewritten key is a new binding with its own lifetime)
+//@ func (*store).expire(key, val)
+//@   props C17 C11 C19
+//@   nosafety
+//@   requires s != nil
+//@   modifies inferred:(*store).expire ghost.sget ghost.skl_writes
+//@   ensures [expires-only-the-binding-it-was-written-with] skl_writes != old(skl_writes) ==> skl_writes == old(skl_writes)+1 && bytes_eq(sget, val)
+//@ func (*batch).asyncRemove$1$1()
+//@   props C17 C11 C19
+//@   nosafety
+//@   requires b != nil && b.store != nil
+//@   modifies inferred:(*batch).asyncRemove$1$1 ghost.sget ghost.skl_writes
